@@ -246,7 +246,10 @@ def rule_byte_cuts(ctx):
             if fn is not None:
                 sp = list(method_calls(fn["body"], "split_at"))
                 t = render(fn["body"]).replace(" ", "")
-                ok = len(sp) == 1 and "while!cur.is_char_boundary(index){(index-=1);}" in t and render(strip(sp[0]["args"][0])) == "index"
+                import sgrep
+                idx_name = render(strip(sp[0]["args"][0])) if len(sp) == 1 else "?"
+                recv_name = render(strip(sp[0]["recv"])) if len(sp) == 1 else "?"
+                ok = len(sp) == 1 and (sgrep.has(fn["body"], "while !__s.is_char_boundary(__i) { __i -= 1; }", None, {"__s": recv_name, "__i": idx_name}) or sgrep.has(fn["body"], "__s.floor_char_boundary(__n)", sgrep.lets(fn["body"]), {"__s": recv_name}))
                 det = "split index moved back to a character boundary before split_at"
             ctx.check(R, key, ok, det or "split_string not found", (s[2], s[3]))
         elif len(s[4]) > 1 and "RangeFull" in s[4][1]:
@@ -264,11 +267,15 @@ def rule_main_component_filled(ctx):
     fn = find_fn(PA, "new", "ProgramArchive")
     if fn is None:
         return ctx.missing(R, "ProgramArchive::new")
-    fills = [m for m in method_calls(fn["body"], "fill") if render(strip(m["recv"])) == "initial_template_call"]
-    ok = len(fills) == 1 and not (conditions_to(fn["body"], fills[0]) or []) and render(strip(fills[0]["args"][0])) == "file_id_main"
+    import sgrep
+    pvn = sgrep.params(fn)
+    fills = [m for m in method_calls(fn["body"], "fill")]
+    ok = len(fills) == 1 and not (conditions_to(fn["body"], fills[0]) or []) and len(pvn) >= 2 and render(strip(fills[0]["args"][0])) == pvn[1]
     ctx.check(R, "ProgramArchive::new/main-expression-filled", ok, "initial_template_call.fill(file_id_main, ..) must run unconditionally", site(PA, fn))
     t = render(fn["body"]).replace(" ", "")
-    ctx.check(R, "ProgramArchive::new/filled-expression-is-stored", "let(public_inputs,mutinitial_template_call)=main_component.clone();" in t and "initial_template_call," in t, "", site(PA, fn))
+    st_ = [x for x in walk(fn["body"]) if x["k"] == "Struct" and last(x["path"]) == "ProgramArchive"]
+    stored = bool(st_) and any(x["name"] == "initial_template_call" and fills and render(strip(x["e"])) == render(strip(fills[0]["recv"])) for x in st_[0]["fields"])
+    ctx.check(R, "ProgramArchive::new/filled-expression-is-stored", stored, "the expression that was filled is the one stored as initial_template_call", site(PA, fn))
 
 
 def run(ctx):
